@@ -52,6 +52,8 @@ def run(idx: Index, rep: Report, tier: str):
         check_offsets(idx, rep, c)
         if kind == "B" and c.name in TABLE_CLASSES:
             check_update_equals_rebuild(idx, rep, c)
+    check_vsqs_update_equals_rebuild(idx, rep)
+    check_adapt_grow_equals_restart(idx, rep)
 
 
 # ---------------------------------------------------------------------------------------------------
@@ -484,4 +486,154 @@ def _same_angle(x, y) -> bool:
     a, b = num(x), num(y)
     if a is None or b is None:
         return x == y
-    return math.isclose(a, b, rel_tol=1e-12, abs_tol=1e-12)
+    # angles of rotation gates are compared modulo 4*pi, a period of every (controlled) rotation and phase gate
+    d = math.remainder(a - b, 4 * math.pi)
+    return abs(d) < 1e-9
+
+
+# ---------------------------------------------------------------------------------------------------
+# the same obligation for classes whose index arithmetic lives in the constructor: the repository class itself is folded
+class _QOpM:
+    """stand-in for a QubitOperator inside the ansatz classes: terms, constant, `- scalar`, compress(), get_operators()"""
+    _sa_model = True
+
+    def __init__(self, terms=None):
+        self.terms = dict(terms or {})
+
+    @property
+    def constant(self):
+        return self.terms.get((), 0.)
+
+    def __sub__(self, c):
+        if isinstance(c, _QOpM):
+            raise Undecidable("operator - operator")
+        t = dict(self.terms)
+        t[()] = t.get((), 0.) - c
+        return _QOpM(t)
+
+    def compress(self, abs_tol=1e-8):
+        self.terms = {k: v for k, v in self.terms.items() if abs(v) > abs_tol}
+
+    def get_operators(self):
+        return [_QOpM({k: v}) for k, v in self.terms.items()]
+
+
+class _SizedArr:
+    _sa_model = True
+
+    def __init__(self, data):
+        self.data = list(data)
+        self.size = len(self.data)
+
+
+def _class_folder(idx: Index, rel: str):
+    from ..rules import circuitsem as _cs
+    from ..rules.circuitsem import make_folder
+
+    def hook(val, types_text):
+        if "QubitOperator" in types_text:
+            return isinstance(val, _QOpM)
+        if types_text.strip() == "Circuit":
+            return isinstance(val, _CircModel)
+        return None
+    fo = make_folder(idx, rel, ctors={"Circuit": lambda a, k: _CircModel(*a, **k), ("Gate", "inverse"): _cs.gate_inverse_ctor(idx),
+                                      "np.array": lambda a, k: _SizedArr(a[0])}, isinstance_hook=hook)
+    fo.env["np.pi"] = math.pi
+    return fo
+
+
+def _method(idx, obj, name, rel):
+    cv = obj.cls_val
+    from ..consteval import FuncVal
+    return FuncVal(cv.methods[name], bound_self=obj, home=(cv.method_home or {}).get(name, cv.home))
+
+
+def check_vsqs_update_equals_rebuild(idx: Index, rep: Report):
+    """VSQS folded as a class (constructor included, operators and circuits replaced by stand-ins): for every combination of Trotter order,
+    navigator Hamiltonian and number of intervals, build(v0) followed by updates equals a fresh object built from the last vector."""
+    rule = "K8.update-equals-rebuild"
+    from ..rules.circuitsem import module_resolver
+    VS = "tangelo/toolboxes/ansatz_generator/vsqs.py"
+    cls = module_resolver(idx, VS)("VSQS")
+    upd = idx.function(f"{VS}::VSQS.update_var_params")
+    if cls is None:
+        raise AnalysisError("VSQS class not resolvable")
+    h_init = {((0, "Z"),): 0.5, ((1, "Z"),): -0.25, (): 1.5}
+    h_final = {((0, "X"), (1, "X")): 0.3, ((0, "Z"), (1, "Z")): -0.6, ((1, "Y"),): 0.2, (): -2.0}
+    h_nav = {((0, "Y"), (1, "Y")): 0.7, ((0, "X"),): 0.1}
+    n = 0
+    for order in (1, 2):
+        for nav in (None, h_nav):
+            for intervals in (2, 3, 4):
+                stride = 3 if nav else 2
+                npar = (intervals - 1) * stride
+                seq = [[0.1 * (k + 1) * (-1) ** k for k in range(npar)], [0.0] * npar, [7.0 + 0.3 * k for k in range(npar)], [0.25] * npar]
+
+                def make():
+                    fo = _class_folder(idx, VS)
+                    return fo.instantiate(cls, [], {"molecule": None, "mapping": "jw", "up_then_down": False, "intervals": intervals, "time": 1.0,
+                                                    "qubit_hamiltonian": _QOpM(h_final), "h_init": _QOpM(h_init), "h_nav": _QOpM(nav) if nav else None,
+                                                    "reference_state": _CircModel([make_gate(["X", [0]], {})]), "trotter_order": order})
+                label = f"VSQS: Trotter order {order}, {'with' if nav else 'without'} navigator, {intervals} intervals"
+                try:
+                    a = make()
+                    _class_folder(idx, VS).call_funcval(_method(idx, a, "build_circuit", VS), [list(seq[0])], {})
+                    for v in seq[1:]:
+                        _class_folder(idx, VS).call_funcval(_method(idx, a, "update_var_params", VS), [list(v)], {})
+                    b = make()
+                    _class_folder(idx, VS).call_funcval(_method(idx, b, "build_circuit", VS), [list(seq[-1])], {})
+                except Undecidable as e:
+                    raise AnalysisError(f"{label}: not foldable: {e}")
+                except Raised as e:
+                    n += 1
+                    rep.violation(rule, upd, upd.node, text=label, what="updating the parameters gives the circuit a fresh build gives", reason=f"raises {e.exc_type}")
+                    continue
+                sa_, sb_ = a.fields["circuit"].signature(), b.fields["circuit"].signature()
+                same = len(sa_) == len(sb_) and all(x[:3] == y[:3] and x[4] == y[4] and _same_angle(x[3], y[3]) for x, y in zip(sa_, sb_))
+                diff = next((f"gate {i}: {x} vs {y}" for i, (x, y) in enumerate(zip(sa_, sb_)) if not (x[:3] == y[:3] and _same_angle(x[3], y[3]))), f"{len(sa_)} vs {len(sb_)} gates")
+                n += 1
+                rep.decide(same, rule, upd, upd.node, text=label,
+                           what="after any sequence of updates the circuit equals, gate by gate, the circuit a fresh object builds from the last vector",
+                           reason=f"updated circuit differs from a rebuilt one at {diff}")
+    rep.floor("VSQS update-vs-rebuild configurations", n, 12)
+
+
+def check_adapt_grow_equals_restart(idx: Index, rep: Report):
+    """ADAPTAnsatz folded as a class: an ansatz grown operator by operator (add_operator) and then updated equals one restarted from the recorded
+    operators and built with the same vector - the two places that derive the per-word prefactor from an operator must agree."""
+    rule = "K8.update-equals-rebuild"
+    from ..rules.circuitsem import module_resolver
+    AD = "tangelo/toolboxes/ansatz_generator/adapt_ansatz.py"
+    cls = module_resolver(idx, AD)("ADAPTAnsatz")
+    addf = idx.function(f"{AD}::ADAPTAnsatz.add_operator")
+    if cls is None:
+        raise AnalysisError("ADAPTAnsatz class not resolvable")
+    op1 = {((0, "X"), (1, "Y")): 0.5, ((0, "Y"), (1, "X")): -0.5}
+    op2 = {((2, "Y"), (0, "X"), (1, "X"), (3, "X")): -0.125, ((2, "X"), (0, "X"), (1, "X"), (3, "Y")): 0.125, ((1, "Z"),): 2.0}
+    n = 0
+    for vec in ([0.3, -0.4], [0.0, 0.0], [7.5, 0.2]):
+        def inst(ops):
+            fo = _class_folder(idx, AD)
+            return fo.instantiate(cls, [4, 2, 0], {"ansatz_options": {"operators": ops, "reference_state": "zero"}})
+        try:
+            a = inst([])
+            _class_folder(idx, AD).call_funcval(_method(idx, a, "build_circuit", AD), [], {})
+            for o in (op1, op2):
+                _class_folder(idx, AD).call_funcval(_method(idx, a, "add_operator", AD), [_QOpM(o)], {})
+            _class_folder(idx, AD).call_funcval(_method(idx, a, "update_var_params", AD), [list(vec)], {})
+            b = inst([_QOpM(op1), _QOpM(op2)])
+            _class_folder(idx, AD).call_funcval(_method(idx, b, "build_circuit", AD), [list(vec)], {})
+        except Undecidable as e:
+            raise AnalysisError(f"ADAPTAnsatz grow/restart not foldable: {e}")
+        except Raised as e:
+            n += 1
+            rep.violation(rule, addf, addf.node, text=f"ADAPT: grown with two operators, updated to {vec}", what="a grown ansatz equals a restarted one", reason=f"raises {e.exc_type}")
+            continue
+        sa_, sb_ = a.fields["circuit"].signature(), b.fields["circuit"].signature()
+        same = len(sa_) == len(sb_) and all(x[:3] == y[:3] and x[4] == y[4] and _same_angle(x[3], y[3]) for x, y in zip(sa_, sb_))
+        diff = next((f"gate {i}: {x} vs {y}" for i, (x, y) in enumerate(zip(sa_, sb_)) if not (x[:3] == y[:3] and _same_angle(x[3], y[3]))), f"{len(sa_)} vs {len(sb_)} gates")
+        n += 1
+        rep.decide(same, rule, addf, addf.node, text=f"ADAPT: grown with two operators then updated to {vec} = restarted from the recorded operators and built with {vec}",
+                   what="growing the ansatz operator by operator and restarting it from the recorded operators give the same circuit for the same parameters",
+                   reason=f"circuits differ at {diff}")
+    rep.floor("ADAPT grow-vs-restart vectors", n, 3)
